@@ -284,6 +284,8 @@ def explore_site(ctx, site, opts, conc, seed, stride=1, only=None):
 
 
 def replay(ctx, case, kind=None, where=None):
+    if case.get('stream') == 'ftp-order':
+        return ftp_order_case(ctx, case)
     site = cc.Site.from_desc(case['site'])
     desc = site.describe()
     rc, ex, full_requests = count_points(desc, case['opts'], case['conc'], case['seed'])
@@ -329,8 +331,73 @@ def run(ctx):
             site.pages[rng.choice(leaves)] = {'kind': 'flaky'}
         conc = rng.choice([1, 2, 3])
         total += explore_site(ctx, site, opts, conc, rng.randrange(1 << 30)) or 0
+    stream_ftp_order(ctx, ctx.scale(40, 600))
     ctx.exhaustive = False
     ctx.note('kill_points_total', total)
+
+
+def stream_ftp_order(ctx, n):
+    """An FTP directory listing is a page whose links are the listed files.  The REAL FTPProcessor processes a listing
+    against a scripted server with a table that records the order of its calls: a kill can fall between any two of
+    them, so at the moment the listing's final status is stored every URL the listing yielded must already have been
+    handed to the table (the model's step order: flush before check-in; `nothing_lost` rests on it)."""
+    rng = ctx.subrng('ftp-order')
+    for _ in range(n):
+        names = rng.sample(['a.txt', 'b.bin', 'sub', 'd2', 'x y.txt', 'README', 'z.tar.gz'], rng.randint(1, 5))
+        mlsd = rng.random() < 0.4
+        lines = []
+        for nm in names:
+            is_dir = nm in ('sub', 'd2')
+            if mlsd:
+                lines.append('type=%s;size=3;modify=20200101000000; %s' % ('dir' if is_dir else 'file', nm))
+            else:
+                lines.append(('drwxr-xr-x 2 u g 4096 Jan 01 00:00 %s' if is_dir else '-rw-r--r-- 1 u g 3 Jan 01 2020 %s') % nm)
+        data = ('\r\n'.join(lines) + '\r\n').encode()
+        url = rng.choice(['ftp://a.test/dir/', 'ftp://a.test/', 'ftp://a.test/dir/sub/'])
+        opts = {'remove_listing': rng.random() < 0.5, 'file_writer': rng.random() < 0.5}
+        ftp_order_case(ctx, {'stream': 'ftp-order', 'url': url, 'data': data, 'mlsd': mlsd, 'opts': opts, 'seed': rng.randrange(1 << 30)})
+
+
+def ftp_order_case(ctx, case):
+    import c09
+    import wpull.pipeline.session as ps
+    orig = ps.ItemSession.add_child_url
+    url, data, mlsd, opts = case['url'], case['data'], case['mlsd'], case['opts']
+    plan = dict(c09.GOOD_FTP)
+    if not mlsd:
+        plan['MLSD'] = b'500 no\r\n'
+    log = []
+
+    class Table(c09._StubTable):
+        def check_in(self, u, status, **kw):
+            log.append(('check_in', u, status.value))
+
+        def add_many(self, *a, **k):
+            log.append(('add_many', [getattr(x, 'url', None) for x in (a[0] if a else [])]))
+
+    def add(self, u, **kw):
+        log.append(('child', u))
+        return orig(self, u, **kw)
+    ps.ItemSession.add_child_url = add
+    try:
+        err = c09.ftp_proc_once(plan, data, url, False, False, case.get('seed', 1), dict(opts, table=Table()))
+    finally:
+        ps.ItemSession.add_child_url = orig
+    children = [e[1] for e in log if e[0] == 'child']
+    ctx.case(('ftp-order', url, data, repr(sorted(opts.items()))), nontrivial=bool(children), tags=['ftp-order:children=%d' % min(len(children), 3)])
+    if err is not None:
+        ctx.fail('ftp-listing-failed', 'FTPProcessor.process', case, 'processing a well-formed listing ended with %r' % (err,))
+        return
+    stored = set()
+    for e in log:
+        if e[0] == 'add_many':
+            stored.update(e[1])
+        elif e[0] == 'check_in' and e[2] in ('done', 'skipped'):
+            late = [c for c in children if c not in stored]
+            if late:
+                ctx.fail('lost-url', 'ftp-listing', case, 'the listing %s is stored as %s while the URLs it yielded are not in the table yet: a kill '
+                         'here loses %s for good (order of calls: %s)' % (e[1], e[2], late[:3], [x[0] for x in log]))
+            break
 
 
 def big_input_site(n=1100):
